@@ -1,6 +1,7 @@
 import WhVerif.Props.C01
 import WhVerif.Lemmas.C02Thm
 import WhVerif.Lemmas.C02Example
+import WhVerif.Lemmas.C02PipelineExample
 /-!
 # C02 — property theorems (composition over the solver model)
 
@@ -75,5 +76,143 @@ theorem pipeline_truth (h : ErrFree I hap src) (hwf : WF I) (β : List Bool) (τ
 
 /-- non-vacuity: the example instance of Lemmas/C02Example.lean is error-free, sorted and connected -/
 example : ErrFree exInst exHap exSrc ∧ WF exInst ∧ Connected exInst 0 2 := ⟨exErrFree, exInst_wf, exConnected⟩
+
+/-! ## Composition across the stage models: solver (C01) → components (C03) → writer (C04) → reader (C09)
+
+`Spec/C02Pipeline.lean` defines the composed stage function for the single-sample case: `superReads` (C01's
+`getAlleles` per column under the backtraced `witness I`, column `c` at genomic position `pos[c]`), `components`
+(C03's `findComponents` on the instance's reads translated by `toC03Read`), the writer input `target`/`cfg`
+(tag PS or HP, repaired writer), `writtenRecords` (C04's `writeChrom`) and `pipeline` (C09's `readChrom` on the written
+records).  `PipelineOk S` collects what the pipeline establishes by construction: strictly increasing column
+positions (one per column), position-sorted single-sample input records. -/
+section pipeline
+open WhVerif.C02P
+
+/-- the positions of two covered columns are connected by reads in the sense of C03 (`find_components`) iff the
+covering reads are connected in the sense of C02 (chains of reads sharing a column) -/
+theorem components_match_read_connectivity (h : ErrFree I hap src) (pos : List Nat) (hpos : pos.Pairwise (· < ·))
+    (hlen : pos.length = I.ncols) (c1 r1 c2 r2 : Nat) (cov1 : covers I r1 c1) (cov2 : covers I r2 c2) :
+    C03.Connected pos (c03Reads I pos) none none (posAt pos c1) (posAt pos c2) ↔ Connected I r1 r2 :=
+  ⟨fun hc => conn_bridge h hpos hlen hc c1 r1 c2 r2 rfl (WhVerif.C02.covers_active h cov1).2 cov1 rfl
+      (WhVerif.C02.covers_active h cov2).2 cov2,
+   fun hc => conn_bridge_rev h hpos hlen hc c1 c2 cov1 cov2⟩
+
+/-- **Composition, step 1 (solver + components).**  Error-free reads, sorted instance: neither stage raises; the
+super reads have one entry per column at its position; every covered column gets the phase-set name
+`1 + leftmost position of its read-connected component` (C03) and exactly the true alleles `(hap c, 1 - hap c)`,
+exchanged or not for the whole component at once (`swap m`); uncovered columns get the tie flag on both
+haplotypes; two covered columns get the same phase set iff their positions are connected by reads. -/
+theorem pipeline_truth_components (h : ErrFree I hap src) (hwf : WF I) (pos : List Nat)
+    (hpos : pos.Pairwise (· < ·)) (hlen : pos.length = I.ncols) :
+    ∃ sr comps, superReads I pos = some sr ∧ components I pos = .ok comps ∧ sr.map (·.1) = pos ∧
+      (∃ swap : Nat → Bool, ∀ c, c < I.ncols →
+        (Covered I c → ∃ m, C03.psOf comps (posAt pos c) = some (m + 1) ∧ m ∈ pos ∧
+            C03.Connected pos (c03Reads I pos) none none (posAt pos c) m ∧
+            (∀ q, C03.Connected pos (c03Reads I pos) none none (posAt pos c) q → m ≤ q) ∧
+            sr[c]? = some (posAt pos c, truthPair hap (swap m) c)) ∧
+        (¬ Covered I c → sr[c]? = some (posAt pos c, 3, 3))) ∧
+      (∀ c1 c2, c1 < I.ncols → c2 < I.ncols →
+        (C03.psOf comps (posAt pos c1) = C03.psOf comps (posAt pos c2) ↔
+          C03.Connected pos (c03Reads I pos) none none (posAt pos c1) (posAt pos c2))) := by
+  obtain ⟨β, τ, hw, hz⟩ := witness_ok h hwf
+  obtain ⟨comps, hcomps⟩ := components_ok h hpos hlen
+  obtain ⟨swap, hswap⟩ := component_swap h hpos hlen hz hcomps
+  have hget : ∀ c, c < I.ncols →
+      ((List.range I.ncols).map fun c => (posAt pos c, (colAl I β τ c).1, (colAl I β τ c).2))[c]? =
+        some (posAt pos c, colAl I β τ c) := by
+    intro c hc; simp [List.getElem?_range hc]
+  refine ⟨_, comps, superReads_eq h hw, hcomps, ?_, ⟨swap, fun c hc => ⟨?_, ?_⟩⟩, ?_⟩
+  · rw [List.map_map, ← hlen]; exact range_map_posAt pos
+  · rintro ⟨r, hcov⟩
+    obtain ⟨m, hm, hmem, hconn, hmin⟩ := WhVerif.Props.C03.component_is_min _ _ _ _ _ hcomps (posAt pos c)
+      (posAt_mem pos (by omega))
+    refine ⟨m, by simp [C03.psOf, hm, C03.psName], hmem, hconn, hmin, ?_⟩
+    rw [hget c hc, hswap c r hc hcov m hm]
+  · intro hn
+    rw [hget c hc, colAl_uncovered h β τ hc hn]
+  · intro c1 c2 h1 h2
+    have hiff := WhVerif.Props.C03.components_iff_connected _ _ _ _ _ hcomps (posAt pos c1) (posAt pos c2)
+      (posAt_mem pos (by omega)) (posAt_mem pos (by omega))
+    rw [← hiff]
+    unfold C03.psOf C03.psName
+    cases C03.compOf comps (posAt pos c1) <;> cases C03.compOf comps (posAt pos c2) <;> simp
+
+/-- **Composition, end to end (solver → components → writer → reader).**  Error-free reads, sorted instance, tag PS
+or HP (repaired writer): no stage raises and the reader returns one row per biallelic input record such that
+1. for every phase set of the decoded output, the decoded haplotype alleles at ALL its phased variants are the truth
+   `hap c | 1 - hap c` — or, for the whole set at once, the exchanged pair (`sw`); every phased variant is a covered
+   column of the instance;
+2. the phase-set name is `1 +` the leftmost position connected to the variant by reads (C03);
+3. every covered column that has a biallelic record is phased;
+4. two phased variants are in the same phase set iff their positions are connected by reads (C03). -/
+theorem pipeline_truth_end_to_end (S : Stage) (h : ErrFree S.I hap src) (hwf : WF S.I) (hin : PipelineOk S) :
+    ∃ rows, pipeline S = some rows ∧
+      rows.map (·.pos) = (S.records.filter biallelic).map (·.pos) ∧
+      (∀ b : Option Int, ∃ sw : Bool, ∀ row ∈ rows, ∀ ph, (rowPhase row).2 = some ph → ph.block = b →
+          ∃ c, c < S.I.ncols ∧ row.pos = posAt S.pos c ∧ Covered S.I c ∧
+            ph.alleles = [some (truthPair hap sw c).1, some (truthPair hap sw c).2]) ∧
+      (∀ row ∈ rows, ∀ ph, (rowPhase row).2 = some ph → ∃ m : Nat, ph.block = some ((m : Int) + 1) ∧ m ∈ S.pos ∧
+          C03.Connected S.pos (c03Reads S.I S.pos) none none row.pos m ∧
+          ∀ q, C03.Connected S.pos (c03Reads S.I S.pos) none none row.pos q → m ≤ q) ∧
+      (∀ row ∈ rows, ∀ c, c < S.I.ncols → row.pos = posAt S.pos c → Covered S.I c → (rowPhase row).2 ≠ none) ∧
+      (∀ row1 ∈ rows, ∀ row2 ∈ rows, ∀ ph1 ph2, (rowPhase row1).2 = some ph1 → (rowPhase row2).2 = some ph2 →
+          (ph1.block = ph2.block ↔ C03.Connected S.pos (c03Reads S.I S.pos) none none row1.pos row2.pos)) := by
+  obtain ⟨comps, rows, swap, T, hcomps, _, hpipe, hrows, hcov, hsome⟩ := stage_rows S h hwf hin
+  -- every decoded phase is the expected statement of a covered column
+  have key : ∀ row ∈ rows, ∀ ph, (rowPhase row).2 = some ph → ∃ c m, c < S.I.ncols ∧ row.pos = posAt S.pos c ∧
+      Covered S.I c ∧ C03.compOf comps row.pos = some m ∧ ph = truthPhase hap (swap m) m c := by
+    intro row hrow ph hph
+    rw [row_written hrows hrow] at hph
+    obtain ⟨c, hc, hp, hcv⟩ := hsome _ _ hph
+    obtain ⟨m, hm, hw⟩ := hcov c hc hcv
+    rw [← hp, hph] at hw
+    exact ⟨c, m, hc, hp, hcv, by rw [hp]; exact hm, Option.some.inj hw⟩
+  have hposmem : ∀ {p c}, c < S.I.ncols → p = posAt S.pos c → p ∈ S.pos := by
+    intro p c hc hp; rw [hp]; exact posAt_mem S.pos (by have := hin.pos_len; omega)
+  refine ⟨rows, hpipe, ?_, ?_, ?_, ?_, ?_⟩
+  · have := congrArg (List.map Prod.fst) hrows
+    rw [List.map_map, List.map_map] at this
+    exact this
+  · intro b
+    refine ⟨swap ((b.getD 0) - 1).toNat, ?_⟩
+    intro row hrow ph hph hb
+    obtain ⟨c, m, hc, hp, hcv, _, rfl⟩ := key row hrow ph hph
+    refine ⟨c, hc, hp, hcv, ?_⟩
+    have : ((b.getD 0) - 1).toNat = m := by
+      rw [← hb]; simp only [truthPhase, Option.getD_some]; omega
+    rw [this]; rfl
+  · intro row hrow ph hph
+    obtain ⟨c, m, hc, hp, _, hm, rfl⟩ := key row hrow ph hph
+    obtain ⟨m', hm', hmem, hconn, hmin⟩ := WhVerif.Props.C03.component_is_min _ _ _ _ _ hcomps row.pos
+      (hposmem hc hp)
+    have : m' = m := Option.some.inj (hm'.symm.trans hm)
+    subst this
+    exact ⟨m', rfl, hmem, hconn, hmin⟩
+  · intro row hrow c hc hp hcv
+    obtain ⟨m, _, hw⟩ := hcov c hc hcv
+    rw [row_written hrows hrow, hp, hw]
+    exact fun hh => by cases hh
+  · intro row1 h1 row2 h2 ph1 ph2 hp1 hp2
+    obtain ⟨c1, m1, hc1, hq1, _, hm1, rfl⟩ := key row1 h1 ph1 hp1
+    obtain ⟨c2, m2, hc2, hq2, _, hm2, rfl⟩ := key row2 h2 ph2 hp2
+    rw [← WhVerif.Props.C03.components_iff_connected _ _ _ _ _ hcomps row1.pos row2.pos (hposmem hc1 hq1)
+      (hposmem hc2 hq2), hm1, hm2]
+    simp only [truthPhase, Option.some.injEq]
+    omega
+
+/-- non-vacuity of both composition theorems: the 3-read example instance at positions 10, 20, 30 satisfies every
+hypothesis, and the composed stage function evaluates on it (tag PS and tag HP) to one phase set named 11 carrying the
+truth `0|1, 1|0, 0|1` -/
+example (tag : WhVerif.C04.Tag) : ErrFree (exStage tag).I exHap exSrc ∧ WF (exStage tag).I ∧ PipelineOk (exStage tag) ∧
+    (pipeline (exStage tag)).map (·.map rowPhase) =
+      some [(10, some ⟨some 11, [some 0, some 1]⟩), (20, some ⟨some 11, [some 1, some 0]⟩),
+            (30, some ⟨some 11, [some 0, some 1]⟩)] :=
+  ⟨exErrFree, exInst_wf, exStage_ok tag, exPipeline tag⟩
+
+example : ∃ sr comps, superReads exInst [10, 20, 30] = some sr ∧ components exInst [10, 20, 30] = .ok comps :=
+  let ⟨sr, comps, h1, h2, _⟩ := pipeline_truth_components exErrFree exInst_wf [10, 20, 30] (by simp) rfl
+  ⟨sr, comps, h1, h2⟩
+
+end pipeline
 
 end WhVerif.Props.C02
